@@ -239,7 +239,7 @@ Proof.
   apply app_nil_r.
 Qed.
 
-Lemma paginate_length : forall data, len (paginate data) = pages_for (len data) * 1024.
+Lemma len_paginate : forall data, len (paginate data) = pages_for (len data) * 1024.
 Proof.
   intros data. unfold paginate.
   rewrite len_paginate_n by (rewrite len_pad_payload; lia).
@@ -255,35 +255,3 @@ Proof.
   apply page_at_paginate_n; [rewrite len_pad_payload|]; lia.
 Qed.
 
-Lemma paginate_all_valid : forall data, all_pages_valid (paginate data) = true.
-Proof.
-  intros data. unfold all_pages_valid.
-  rewrite paginate_length. unfold PAGE_SZ.
-  apply andb_true_intro. split.
-  - apply N.eqb_eq. lia.
-  - apply forallb_forall. intros p Hp. apply in_seq in Hp.
-    assert (Hp' : N.of_nat p < pages_for (len data)) by lia.
-    change (page_of (paginate data) (N.of_nat p)) with (page_at 1024 (paginate data) (N.of_nat p)).
-    rewrite page_at_paginate by assumption.
-    assert (Hl : len (slice (N.of_nat p * 1020) 1020 (pad_payload data)) = 1020).
-    { rewrite len_slice, len_pad_payload. lia. }
-    pose proof (page_ok_sealed _ Hl) as Hok.
-    unfold page_ok in Hok. unfold page_valid, PAYLOAD_SZ.
-    exact Hok.
-Qed.
-
-Lemma strip_paginate : forall data, strip_crc (paginate data) = pad_payload data.
-Proof.
-  intros data. unfold strip_crc. rewrite paginate_length. unfold PAGE_SZ.
-  replace (pages_for (len data) * 1024 / 1024) with (pages_for (len data)) by lia.
-  unfold paginate. apply strip_paginate_n.
-  rewrite len_pad_payload. lia.
-Qed.
-
-Lemma paginate_pad : forall data, paginate (pad_payload data) = paginate data.
-Proof.
-  intros data. unfold paginate at 1.
-  rewrite len_pad_payload, pages_for_mult.
-  rewrite (pad_payload_divisible (pad_payload data)) by (rewrite len_pad_payload; lia).
-  reflexivity.
-Qed.
